@@ -7,8 +7,8 @@ NOTE_COMMON = ('Trusted: Lean 4.33 kernel + Mathlib v4.33 (axioms propext, Class
 
 CHECKS = {
  'C01': dict(
-   text='Theorems: the coded QR/SVD solve formula satisfies (and uniquely solves) the penalised normal equations under the LAPACK/Cholesky contracts for every number of rows k <, =, > m; a solution of the normal equations is the global minimiser of the penalised weighted least-squares criterion (exact excess formula); a fixed point of the model PIRLS step is exactly a zero of the score residual, whose summand is w asym (y - mu)/(V g\') (with C06/C07: -1/2 the gradient of the penalised deviance); ExpectileGAM likewise with asymmetric weights. Tied to /repo by evaluating the model PIRLS step (Float driver) at the coef_ of real converged fits (13 class / family x link pairs, n vs m, weights, lam, constraints) on the exported model matrix, penalties, weights and mask, by validating the LAPACK contracts on captured loop locals, and by a NumPy backward-error / Newton-step stationarity oracle and closed-form check.',
-   note=NOTE_COMMON + 'PARTIAL: LAPACK qr/svd and the Cholesky factor are contracts (hypotheses), validated numerically per fit; IEEE rounding and the sqrt(eps) ridge are not modelled (stationarity is judged as normwise backward error <= 1e-6 and Newton step <= max(1e-6, 10 eps cond), problems with cond > 4.5e11 are judged on backward error only); the per-coordinate HasDerivAt form of the score equation is assembled from C06/C07 theorems, not restated as one theorem.',
+   text='Theorems: the coded QR/SVD solve formula satisfies (and uniquely solves) the penalised normal equations under the LAPACK/Cholesky contracts for every number of rows k <, =, > m; a solution of the normal equations is the global minimiser of the penalised weighted least-squares criterion (exact excess formula); a fixed point of the model PIRLS step is exactly a zero of the score residual, whose summand is w asym (y - mu)/(V g\') (with C06/C07: -1/2 the gradient of the penalised deviance); ExpectileGAM likewise with asymmetric weights; over R, along every coordinate the penalised deviance has derivative -2 x the score residual (chain rule through the inverse link and C06 dev_hasDerivAt), so a zero score residual is a stationary point. Tied to /repo by evaluating the model PIRLS step (Float driver) at the coef_ of real converged fits (13 class / family x link pairs, n vs m, weights, lam, constraints) on the exported model matrix, penalties, weights and mask, by validating the LAPACK contracts on captured loop locals, and by a NumPy backward-error / Newton-step stationarity oracle and closed-form check.',
+   note=NOTE_COMMON + 'PARTIAL: LAPACK qr/svd and the Cholesky factor are contracts (hypotheses), validated numerically per fit; IEEE rounding and the sqrt(eps) ridge are not modelled (stationarity is judged as normwise backward error <= 1e-6 and Newton step <= max(1e-6, 10 eps cond), problems with cond > 4.5e11 are judged on backward error only); the ExpectileGAM criterion is non-smooth where a residual is zero, so its stationarity is stated as the algebraic score equation only.',
    technique='Lean 4 theorems (Matrix algebra over a field, big-operator algebra) + Float-model correspondence at real fits + contract validation',
    ref='7/C01'),
  'C02': dict(
